@@ -322,15 +322,17 @@ func duel(seed uint64, r *simrt.Rand, p *Profile, prop string) *Scenario {
 	g.nConns = n
 	add := func(st Step) { g.steps = append(g.steps, st) }
 	add(Step{Conn: 0, Op: "type_add", Name: "alpha"})
-	if r.Bool(0.5) {
-		add(Step{Conn: 1, Op: "type_add", Name: "beta"})
-	}
+	add(Step{Conn: 1, Op: "type_add", Name: "beta"})
 	for c := 0; c < n; c++ {
 		for i := 0; i < 1+r.Intn(2); i++ {
 			add(Step{Conn: c, Op: "entity_add", Seq: float32(c*4 + i + 1), Persist: r.Bool(0.2)})
 		}
-		if r.Bool(0.5) {
-			add(Step{Conn: c, Op: "subscribe", Typ: Ref{K: "reg", I: r.Intn(2)}})
+		// most members follow both types: a view can only diverge where it is kept
+		if r.Bool(0.8) {
+			add(Step{Conn: c, Op: "subscribe", Typ: Ref{K: "reg", I: 0}})
+		}
+		if r.Bool(0.6) {
+			add(Step{Conn: c, Op: "subscribe", Typ: Ref{K: "reg", I: 1}})
 		}
 		if r.Bool(0.6) {
 			// something to update, list and delete on its entity
